@@ -82,6 +82,30 @@ impl Write for FaultWriter {
     }
 }
 
+/// the low-level automata are searched through a *borrowed* automaton (`A = &T`), i.e. through the
+/// forwarding `impl Automaton for &A`, as code generic over `A: Automaton` does
+fn sf_generic<A: aho_corasick::automaton::Automaton>(a: A, rdr: SchedReader) -> Result<Vec<Result<M, String>>, String> {
+    match a.try_stream_find_iter(rdr) {
+        Ok(it) => {
+            let mut out = vec![];
+            for r in it {
+                match r {
+                    Ok(m) => out.push(Ok(cv(m))),
+                    Err(e) => {
+                        out.push(Err(e.to_string()));
+                        break;
+                    }
+                }
+            }
+            Ok(out)
+        }
+        Err(e) => Err(e.to_string()),
+    }
+}
+fn sr_generic<A: aho_corasick::automaton::Automaton>(a: A, rdr: SchedReader, w: &mut FaultWriter, repl: &[Vec<u8>]) -> io::Result<()> {
+    a.try_stream_replace_all(rdr, w, repl)
+}
+
 fn stream_find(b: &Built, rdr: SchedReader) -> Result<Vec<Result<M, String>>, String> {
     macro_rules! go {
         ($it:expr) => {{
@@ -103,27 +127,18 @@ fn stream_find(b: &Built, rdr: SchedReader) -> Result<Vec<Result<M, String>>, St
             Ok(it) => go!(it),
             Err(e) => Err(e.to_string()),
         },
-        Built::NC(a) => match a.try_stream_find_iter(rdr) {
-            Ok(it) => go!(it),
-            Err(e) => Err(e.to_string()),
-        },
-        Built::C(a) => match a.try_stream_find_iter(rdr) {
-            Ok(it) => go!(it),
-            Err(e) => Err(e.to_string()),
-        },
-        Built::D(a) => match a.try_stream_find_iter(rdr) {
-            Ok(it) => go!(it),
-            Err(e) => Err(e.to_string()),
-        },
+        Built::NC(a) => sf_generic(a, rdr),
+        Built::C(a) => sf_generic(a, rdr),
+        Built::D(a) => sf_generic(a, rdr),
     }
 }
 
 fn stream_replace(b: &Built, rdr: SchedReader, w: &mut FaultWriter, repl: &[Vec<u8>]) -> io::Result<()> {
     match b {
         Built::Top(t) => t.try_stream_replace_all(rdr, w, repl),
-        Built::NC(a) => a.try_stream_replace_all(rdr, w, repl),
-        Built::C(a) => a.try_stream_replace_all(rdr, w, repl),
-        Built::D(a) => a.try_stream_replace_all(rdr, w, repl),
+        Built::NC(a) => sr_generic(a, rdr, w, repl),
+        Built::C(a) => sr_generic(a, rdr, w, repl),
+        Built::D(a) => sr_generic(a, rdr, w, repl),
     }
 }
 
